@@ -31,6 +31,7 @@ open Wire Pen PenShow Gen
     fl <nodes> <edges> <cycles> <gauge>                    cycles: lab,lab,...@idx (planted) or ...@- separated by ';' ; gauge: lab=±1,... or -
     chim <m> <n> <t> <multiplier> <nodes|none> <edges> <draws>    draws: the recorded indices of choice((-1., 1.))
     mimo <nt> <y> <F rows>  |  mimob <nr> <nt> <draws>  |  comp <nr> <nt> <attenuation rows> <draws>
+    qpsk <nt> <Re y> <Im y> <Re F rows> <Im F rows>
 -/
 
 def kindOf? (s : String) : Option GateKind :=
@@ -298,6 +299,10 @@ def answer3 (line : String) : Option String :=
     match nr.toNat?, nt.toNat?, parseMatrix a, parseNats draws with
     | some nr, some nt, some a, some draws => match compBinary nr nt a draws with | some bag => showBag .spin bag | none => "err"
     | _, _, _, _ => "bad-op"
+  | ["qpsk", nt, yr, yi, fr, fi] => some <|
+    match nt.toNat?, parseRats yr, parseRats yi, parseMatrix fr, parseMatrix fi with
+    | some nt, some yr, some yi, some fr, some fi => match mimoQpsk nt yr yi fr fi with | some bag => showBag .spin bag | none => "err"
+    | _, _, _, _, _ => "bad-op"
   | ["mimob", nr, nt, draws] => some <|
     match nr.toNat?, nt.toNat?, parseNats draws with
     | some nr, some nt, some draws => match mimoBinary nr nt draws with | some bag => showBag .spin bag | none => "err"
